@@ -29,6 +29,7 @@ pub struct Script {
 	pub spawn_fail: Vec<usize>,  // spawn attempt indices (0-based) that fail
 	pub signal_fail: Vec<usize>, // global signal call indices that fail
 	pub kill_fail: Vec<usize>,   // global start_kill call indices that fail
+	pub wait_fail: Vec<usize>,   // global indices of wait() completions that fail instead (the child stays un-reaped)
 }
 
 #[derive(Debug)]
@@ -38,6 +39,8 @@ pub struct World {
 	pub script: Script,
 	pub attempts: usize,
 	pub spawned: usize,
+	pub waits: usize,
+	pub force_exit: Option<Instant>,   // set by a history's hook: every live child ends (status 0) at that instant
 	pub signals: usize,
 	pub kills: usize,
 }
@@ -71,7 +74,18 @@ pub struct SimChild {
 }
 
 impl SimChild {
+	fn absorb_forced(&self) {
+		let f = self.sh.lock().unwrap().force_exit;
+		if let Some(t) = f {
+			let mut st = self.st.lock().unwrap();
+			if st.exit_at.map_or(true, |e| t < e) {
+				st.exit_at = Some(t);
+				st.status = 0;
+			}
+		}
+	}
 	fn exited(&self) -> bool {
+		self.absorb_forced();
 		self.st.lock().unwrap().exit_at.map_or(false, |t| t <= Instant::now())
 	}
 }
@@ -117,10 +131,21 @@ impl TokioChildWrapper for SimChild {
 	}
 	fn wait(&mut self) -> Box<dyn Future<Output = Result<ExitStatus>> + Send + '_> {
 		Box::new(async move {
+			self.absorb_forced();
 			let at = self.st.lock().unwrap().exit_at;
 			match at {
 				Some(t) => tokio::time::sleep_until(t).await,
 				None => std::future::pending::<()>().await,
+			}
+			let fail = {
+				let mut w = self.sh.lock().unwrap();
+				let k = w.waits;
+				w.waits += 1;
+				w.script.wait_fail.contains(&k)
+			};
+			if fail {
+				log(&self.sh, &format!("waitfail({})", self.idx));
+				return Err(std::io::Error::other("injected wait failure"));
 			}
 			let (first, status) = {
 				let mut st = self.st.lock().unwrap();
